@@ -1,5 +1,3 @@
-use subslice::SubsliceExt as _;
-
 #[derive(Debug)]
 pub(super) enum CompatibleDocument<'a> {
     WellFormed(&'a [u8]),
@@ -27,6 +25,17 @@ impl<'a> CompatibleDocument<'a> {
 // to detect or fiddle with the document.
 const RING_TEMPLATE_CONTEXT_SPECIFIC: &[u8] = &[0xA1, 0x23, 0x03, 0x21];
 
+// In ring's template the sentinel is followed by the unused-bits byte of the BIT STRING and the 32
+// bytes of the public key, which end the document.
+const RING_TEMPLATE_SUFFIX_LEN: usize = RING_TEMPLATE_CONTEXT_SPECIFIC.len() + 1 + 32;
+
+// The position of the sentinel, if it is where ring's template puts it. The same bytes can also
+// occur inside the private key, so they must not be searched for in the whole document.
+fn ring_template_index(bytes: &[u8]) -> Option<usize> {
+    let idx = bytes.len().checked_sub(RING_TEMPLATE_SUFFIX_LEN)?;
+    bytes[idx..].starts_with(RING_TEMPLATE_CONTEXT_SPECIFIC).then_some(idx)
+}
+
 // A checked well-formed context-specific[1] prefix.
 const WELL_FORMED_CONTEXT_ONE_PREFIX: &[u8] = &[0x81, 0x21];
 
@@ -38,9 +47,8 @@ fn fix_ring_doc(mut doc: Vec<u8>) -> Vec<u8> {
     // Second byte asserts the length for the rest of the document
     assert_eq!(doc[1] as usize, doc.len() - 2);
 
-    let idx = doc
-        .find(RING_TEMPLATE_CONTEXT_SPECIFIC)
-        .expect("Expected to find ring template in doc, but found none.");
+    let idx =
+        ring_template_index(&doc).expect("Expected to find ring template in doc, but found none.");
 
     // Snip off the malformed bit.
     let suffix = doc.split_off(idx);
@@ -63,5 +71,5 @@ fn is_ring(bytes: &[u8]) -> bool {
     bytes.len() >= 2
         && bytes[0] == 0x30
         && bytes[1] as usize == bytes.len() - 2
-        && bytes.find(RING_TEMPLATE_CONTEXT_SPECIFIC).is_some()
+        && ring_template_index(bytes).is_some()
 }
